@@ -47,6 +47,16 @@ theorem hemisphere_closed {rows cols : Nat} (hR : 2 ≤ rows) (hC : 3 ≤ cols) 
 
 example : Closed (hemisphereTris 4 5) := hemisphere_closed (by decide) (by decide)
 
+/-- **Capped cylinder, all side counts `≥ 3`** (side strip + top circle + bottom circle rotated by π): closed once
+    the seam column is merged with column 0 and each cap's rim with the side's rim (`cylinderPt`, validated
+    against the implementation's positions on every run). -/
+theorem cylinder_closed_mod_merge {sides : Nat} (hS : 3 ≤ sides) :
+    ClosedMod (cylinderPt sides) (cylinderTris sides false false) := by
+  rw [ClosedMod, cylinder_map_pt (by omega)]
+  exact cylL_closed hS
+
+example : ClosedMod (cylinderPt 3) (cylinderTris 3 false false) := cylinder_closed_mod_merge (by decide)
+
 /-- the welded box's triangles: the regenerated `cubeVertIndices` table -/
 def cubeWeldedTris : List Tri := unflat Gen.CubeTable.cubeVertIndices
 
